@@ -784,4 +784,34 @@ theorem stepLines_events (st : LSt) (hcur : st.cur = none) (evs : List (Ev × Bo
     rw [ih _ hp.2 (fun x hx => h x (by simp [hx])), hp.1]
     cases p.1.act <;> simp
 
+/-! ### several transports in one process -/
+
+theorem applyAt_get {α : Type} (sts : List (St α)) (i j : Nat) (a : Action α) :
+    (applyAt sts j a)[i]? = if i = j then (sts[i]?).map (fun s => step s a) else sts[i]? := by
+  induction sts generalizing i j with
+  | nil => cases j <;> simp [applyAt]
+  | cons s ss ih =>
+    cases j with
+    | zero =>
+      cases i with
+      | zero => simp [applyAt]
+      | succ i => simp [applyAt]
+    | succ j =>
+      cases i with
+      | zero => simp [applyAt]
+      | succ i => simp [applyAt, ih]
+
+theorem runTagged_get {α : Type} (sts : List (St α)) (acts : List (Nat × Action α)) (i : Nat) :
+    (runTagged sts acts)[i]? = (sts[i]?).map (fun s => run s (projActs i acts)) := by
+  induction acts generalizing sts with
+  | nil => simp [runTagged, projActs, run]
+  | cons p ps ih =>
+    have e : runTagged sts (p :: ps) = runTagged (applyAt sts p.1 p.2) ps := rfl
+    rw [e, ih, applyAt_get]
+    by_cases h : i = p.1
+    · subst h
+      cases hs : sts[p.1]? <;> simp [projActs, run]
+    · have h' : ¬ p.1 = i := fun x => h x.symm
+      simp [h, h', projActs]
+
 end Verif.Model.SseReq
